@@ -337,6 +337,10 @@ def raise_classes(chk, P):
                 continue
             r = P.resolve_expr(fi.module, target)
             ok = isinstance(r, ClassInfo) and r.is_subclass_of(cfg)
+            if not ok and isinstance(exc, ast.Call):
+                # raise helper(...): the helper is an exception factory when every value it returns is a
+                # ConfigurationException
+                ok = _factory_returns_cfg(P, fi, target, cfg, 3)
             why = None
             if not ok:
                 why = ALLOWED_RAISES.get((fi.module.name, fi.qualname, name))
@@ -352,6 +356,50 @@ def raise_classes(chk, P):
             chk.ob("C16.E8", "exception class %s derives from ConfigurationException" % ci.name, ok, site="%s:%d %s" % (ci.module.relpath, ci.node.lineno, ci.name),
                    found=[getattr(c, "name", "?") for c in ci.mro()], expect="ConfigurationException in its bases", key="C16.E8|class|%s" % ci.name)
     return n
+
+
+def _factory_returns_cfg(P, fi, target, cfg, depth):
+    """target(...) is a call of a repository function or of a method of the enclosing class all of whose returns
+    construct a ConfigurationException subclass (directly or through another such factory)"""
+    if depth == 0:
+        return False
+    callee = None
+    if isinstance(target, ast.Attribute) and isinstance(target.value, ast.Name) and target.value.id in ("self", "cls") \
+            and fi.cls is not None:
+        callee = fi.cls.lookup(target.attr)
+        for sub in P.subclasses(fi.cls):
+            o = sub.lookup(target.attr)
+            if o is not None and o is not callee and not _all_returns_cfg(P, o, cfg, depth):
+                return False
+    else:
+        r = P.resolve_expr(fi.module, target)
+        if isinstance(r, FuncInfo):
+            callee = r
+    if not isinstance(callee, FuncInfo):
+        return False
+    return _all_returns_cfg(P, callee, cfg, depth)
+
+
+def _all_returns_cfg(P, callee, cfg, depth):
+    rets = [n for n in ast.walk(callee.node) if isinstance(n, ast.Return) and _owner(callee.node, n) is callee.node]
+    if not rets or _falls_off_end(callee.node):
+        return False
+    for r in rets:
+        v = r.value
+        if not isinstance(v, ast.Call):
+            return False
+        c = P.resolve_expr(callee.module, v.func)
+        if isinstance(c, ClassInfo) and c.is_subclass_of(cfg):
+            continue
+        if not _factory_returns_cfg(P, callee, v.func, cfg, depth - 1):
+            return False
+    return True
+
+
+def _falls_off_end(fnode):
+    """conservative: the last statement of the body is neither a return nor a raise"""
+    last = fnode.body[-1]
+    return not isinstance(last, (ast.Return, ast.Raise))
 
 
 def _owner(fnode, target):
